@@ -6,6 +6,7 @@ import (
 	"math"
 	"strconv"
 	"strings"
+	"time"
 
 	"github.com/cybergarage/go-redis/redis"
 	"github.com/cybergarage/go-redis/redis/proto"
@@ -155,6 +156,10 @@ func hasNilElement(m *proto.Message) bool {
 
 // modeParse: line "<chunks|-> <hex> [maxvalues]" ; out "<idx> <result>" with result = V<consumed>:<tree>;...;{S|E|P|L}
 // S end of stream, E error, P panic (with message), L value limit reached.
+var parseHangs = 0
+
+const parseWatchdog = 20 * time.Second
+
 func modeParse(args []string) {
 	idx := 0
 	stdinLines(func(line string) {
@@ -176,8 +181,16 @@ func modeParse(args []string) {
 				}
 			}
 		}
+		if parseHangs >= 3 {
+			// three inputs already left a goroutine spinning inside the parser: do not start more of them
+			fmt.Fprintf(out, "%d SKIP\n", idx)
+			idx++
+			return
+		}
 		var sb strings.Builder
-		func() {
+		done := make(chan struct{})
+		go func() {
+			defer close(done)
 			defer func() {
 				if r := recover(); r != nil {
 					msg := fmt.Sprint(r)
@@ -219,7 +232,14 @@ func modeParse(args []string) {
 				sb.WriteString(fmt.Sprintf("V%d%s:%s;", consumed, nilFlag, treeOf(m)))
 			}
 		}()
-		fmt.Fprintf(out, "%d %s\n", idx, sb.String())
+		select {
+		case <-done:
+			fmt.Fprintf(out, "%d %s\n", idx, sb.String())
+		case <-time.After(parseWatchdog):
+			// Parser.Next did not return: the goroutine keeps running (it cannot be stopped), the case is reported as a hang
+			parseHangs++
+			fmt.Fprintf(out, "%d H\n", idx)
+		}
 		idx++
 	})
 }
